@@ -35,6 +35,105 @@ type fseed struct {
 	B      []byte
 	Dict   int
 	Bounds []int // offsets of structural fields worth hitting
+	XS     *xzSeed // parsed container (single-stream xz seeds): basis of structural edits
+}
+
+// xzParsed returns the parsed form of a valid single-stream .xz seed, nil otherwise.
+func xzParsed(id string, b []byte) *xzSeed {
+	o, ss, err := ref.DecodeXZ(b, 0)
+	if err != nil || len(ss) != 1 || len(ss[0].Blocks) == 0 || ss[0].PaddingAfter != 0 {
+		return nil
+	}
+	return &xzSeed{ID: id, B: b, Content: o, S: ss[0], Check: ss[0].Check}
+}
+
+var extremeSizes = []int64{0, 1, 2, 0x7f, 0x80, 0x3fff, 0x4000, 1<<31 - 1, 1 << 31, 1<<32 - 1, 1 << 32, 1 << 40, 1 << 62, 1<<63 - 2, 1<<63 - 1}
+
+// xzStructMutate rebuilds the container of a valid stream with hostile field values - block
+// header size fields, flags, filter id, properties size, header padding, index count and
+// records, backward size - serialised properly and with every CRC32 re-sealed, so the values
+// reach the code behind the CRC gates (a byte-level mutation cannot produce a size field of a
+// different length with a matching CRC).  The dictionary code stays <= 28 (quantifier bound).
+func xzStructMutate(r *prng.R, xs *xzSeed) []byte {
+	p := splitXZ(*xs)
+	pickSize := func(actual int64) int64 {
+		switch r.Intn(4) {
+		case 0:
+			return actual + int64(r.Intn(5)) - 2
+		case 1:
+			return int64(r.U64() >> uint(1+r.Intn(63)))
+		}
+		return extremeSizes[r.Intn(len(extremeSizes))]
+	}
+	for n := r.Range(1, 3); n > 0; n-- {
+		bi := r.Intn(len(p.bh))
+		bl := p.s.Blocks[bi]
+		switch r.Intn(10) {
+		case 0, 1, 2, 3: // block header fields
+			sp := blockSpec(&p, bi)
+			switch r.Intn(9) {
+			case 0:
+				sp.Unc = pickSize(int64(bl.UncLen))
+			case 1:
+				sp.Comp = pickSize(int64(bl.CompLen))
+			case 2:
+				sp.Unc, sp.Comp = pickSize(int64(bl.UncLen)), pickSize(int64(bl.CompLen))
+			case 3:
+				sp.Unc63 = r.Bool()
+				sp.Comp63 = !sp.Unc63 || r.Bool()
+			case 4:
+				sp.FlagsOr = byte(r.Intn(64))
+			case 5:
+				sp.FilterID = uint64(r.Pick(0, 1, 3, 4, 0x20, 0x22, 0x4000, 1<<62, 1<<63-1))
+			case 6:
+				sp.PropsSize = uint64(r.Pick(0, 2, 3, 0x7f, 0x80, 1<<32, 1<<63-1))
+				sp.Props = make([]byte, r.Intn(4))
+			case 7:
+				sp.Props = []byte{byte(r.Pick(0, 1, 27, 28, 41, 63, 64, 0x80|int(bl.DictCode), 255))}
+			default:
+				sp.ExtraPad = r.Intn(4)
+				sp.PadByte = byte(r.Pick(0, 0, 1, 0xff))
+			}
+			if len(sp.Props) == 1 && sp.Props[0] > 28 && sp.Props[0] <= 40 {
+				sp.Props[0] = 28
+			}
+			nb := sp.Bytes()
+			if len(nb) > 1024 {
+				continue
+			}
+			p.bh[bi] = nb
+			if r.Chance(2, 3) && bi < len(p.recs) {
+				p.recs[bi][0] += int64(len(nb) - bl.HeaderSize)
+				p.resealIndexFooter()
+			}
+		case 4, 5: // index records
+			if bi >= len(p.recs) {
+				continue
+			}
+			if r.Bool() {
+				p.recs[bi][0] = pickSize(p.recs[bi][0])
+			} else {
+				p.recs[bi][1] = pickSize(p.recs[bi][1])
+			}
+			p.resealIndexFooter()
+		case 6: // index count
+			cnt := pickSize(int64(len(p.recs)))
+			p.idx = ref.IndexBytes(p.recs, cnt, byte(r.Pick(0, 0, 0, 1)))
+			p.foot = ref.StreamFooter(int64(len(p.idx)), 0, p.check)
+		case 7: // records added / removed
+			if r.Bool() && len(p.recs) > 1 {
+				p.recs = p.recs[:len(p.recs)-1]
+			} else {
+				p.recs = append(p.recs, [2]int64{pickSize(20), pickSize(20)})
+			}
+			p.resealIndexFooter()
+		case 8: // footer
+			p.foot = ref.StreamFooter(pickSize(int64(len(p.idx)))&^3, byte(r.Pick(0, 0, 1)), byte(r.Pick(int(p.check), int(p.check), 0, 1, 4, 10, 15)))
+		default: // stream header flags
+			p.hdr = ref.StreamHeader(byte(r.Pick(0, 0, 1, 0x80)), byte(r.Pick(int(p.check), 0, 1, 4, 10, 2, 15, 0x11)))
+		}
+	}
+	return p.assemble()
 }
 
 func c11Seeds(c *ev.Ctx) []fseed {
@@ -51,6 +150,7 @@ func c11Seeds(c *ev.Ctx) []fseed {
 		switch f {
 		case "xz":
 			fs.Bounds = xzBounds(s.B)
+			fs.XS = xzParsed(s.ID, s.B)
 		case "lzma2":
 			if ch, _, err := ref.WalkLZMA2(s.B); err == nil {
 				for _, x := range ch {
@@ -84,7 +184,7 @@ func c11Seeds(c *ev.Ctx) []fseed {
 			out = append(out, fs)
 		}
 		xb := libWriteXZ(xz.WriterConfig{DictCap: 65536, BlockSize: int64(r.Pick(0, 9000))}, data)
-		out = append(out, fseed{ID: fmt.Sprintf("farxz%d", i), Format: "xz", B: xb, Dict: 4096, Bounds: xzBounds(xb)})
+		out = append(out, fseed{ID: fmt.Sprintf("farxz%d", i), Format: "xz", B: xb, Dict: 4096, Bounds: xzBounds(xb), XS: xzParsed(fmt.Sprintf("farxz%d", i), xb)})
 	}
 	return out
 }
@@ -95,6 +195,10 @@ var interesting = []byte{0, 1, 2, 3, 0x7f, 0x80, 0x81, 0xc0, 0xe0, 0xfe, 0xff, 0
 func mutate(r *prng.R, s fseed, seeds []fseed) []byte {
 	b := append([]byte(nil), s.B...)
 	nops := r.Range(1, 4)
+	if s.XS != nil && r.Chance(1, 3) {
+		b = xzStructMutate(r, s.XS)
+		nops = r.Range(0, 2)
+	}
 	near := func() int {
 		if len(b) == 0 {
 			return 0
